@@ -25,7 +25,7 @@
 (*            1.055, 0.055, exponent 2.4 = 12/5; and the variant in which  *)
 (*            1.055 is replaced by the value that makes the two segments   *)
 (*            meet exactly at 0.0031308 (1.0549999686...; the rounded      *)
-(*            constants of the standard leave a step of 1e-8 there) - what *)
+(*            constants of the standard leave a step of 3e-8 there) - what *)
 (*            palette's table generator uses                               *)
 (*  Rec.709 / Rec.2020 OETF  ITU-R BT.709-6, BT.2020-2: 4.5, exponent      *)
 (*            1/0.45 = 20/9, and either alpha = 1.099, beta = 0.018 or the *)
